@@ -7,7 +7,7 @@ M(m, w) == <<m, w>>
 \* trigger / await points used by the catalogue
 TrigPts == {M("before_START_ACTIVITY", -1), M("before_START_ACTIVITY", 0), M("before_START_ACTIVITY", 2),
             M("leave_CONFIGURED", 0), M("enter_RUNNING", 0), M("after_START_ACTIVITY", 0), M("before_STOP_ACTIVITY", 0),
-            M("after_STOP_ACTIVITY", -1)}
+            M("leave_RUNNING", 0), M("after_STOP_ACTIVITY", -1)}
 AwaitAfter(t) ==  \* await points at or after the trigger: same point, later weight, later moment, later transition, never
   {t} \cup (IF t[1] = "before_START_ACTIVITY" THEN {M("before_START_ACTIVITY", 5)} ELSE {})
       \cup {M("after_START_ACTIVITY", 0), M("after_STOP_ACTIVITY", 0), M("after_RESET", 0)}
@@ -21,7 +21,7 @@ Cfg2 ==
      fails |-> f, plan |-> p, bodyfails |-> b, teardown |-> TRUE] :
       t1 \in TrigPts, t2 \in {M("before_START_ACTIVITY", 0), M("before_START_ACTIVITY", 5), M("after_START_ACTIVITY", 0)},
       a1 \in UNION {AwaitAfter(t) : t \in TrigPts}, a2 \in {M("after_START_ACTIVITY", 0)},
-      c1 \in BOOLEAN, f \in SUBSET {"h1"}, p \in {<<"START_ACTIVITY", "STOP_ACTIVITY">>, <<"START_ACTIVITY">>}, b \in {{}, {1}} }
+      c1 \in BOOLEAN, f \in SUBSET {"h1"}, p \in {<<"START_ACTIVITY", "STOP_ACTIVITY">>, <<"START_ACTIVITY">>}, b \in {{}, {1}, {2}} }
 Cfg2Valid == {c \in Cfg2 : c.await["h1"] \in AwaitAfter(c.trig["h1"])}
 
 \* two hooks meeting in one moment: weights on both sides of zero, calls awaited in the same moment at
